@@ -1,16 +1,26 @@
 """C06 — functional-group queries are deterministic and pure.
 
 The runtime part of the property is exercised, not modelled: harness/worker_seed.py is started as
-fresh interpreters with different PYTHONHASHSEED values; every process answers the same molecules
-(in a different order, so the histories of the long-lived FGQuery object differ), asks every query
-twice on the same object and once on a fresh object, and snapshots the caller's graph (node order,
-attributes, adjacency order, edge attributes) around every call.  The specification
-(`C06 det` in the Lean driver): all answers of all processes/objects/repetitions are identical and
-every snapshot equals the one taken before the call.
+fresh interpreters with different PYTHONHASHSEED values.  A query object has a KIND = its construction
+parameters (mapper: default / no-wildcard / case-sensitive; configuration: default collection / user
+lists incl. lists with effective anti-patterns and explicit group_atoms; require_implicit_hydrogen
+True / False — False being the only path on which query.py works on the caller's graph without a
+deepcopy).  PURE processes only ever build one kind of object; MIXED processes interleave queries on
+objects of all kinds, built at first use in a seed-dependent order (state shared between objects —
+module globals, shared providers — shows up as a difference between the two).  Every process sees its
+molecules in its own order (different histories of the long-lived objects), asks every query twice on
+the long-lived object and (seed-chosen part, at least once per molecule; always for user lists) once on
+a freshly built object, and snapshots the caller's graph (node order, attributes, adjacency order, edge
+attributes, graph attributes) around every call.  The specification (`C06 det` in the Lean driver):
+all answers of one (kind, molecule) from all processes/objects/repetitions are identical and every
+snapshot equals the one taken before the call.  A worker whose set-up fails (FGQuery construction,
+molecule graph) fails its case; a job without an answer is a machinery failure.
 
 The logic part (cache, set-iteration order, sort keys) is modelled (Model/C06.lean, Model/C07.lean)
-and proved (Proofs/C06.lean); the model's ORDERED tree (roots list, children lists) is compared with
-the trees the processes build (`C06 tree`).
+and proved (Proofs/C06*.lean; `C06.input_untouched` is `rfl` and the functional reading of
+`C06.deterministic` is typing — neither is evidence about the code); the model's ORDERED tree (roots
+list, children lists) is compared with the trees the processes build (`C06 tree`), and the composed
+model with `FGQuery(config=…).get` (`C06 e2e`).
 """
 import hashlib
 import json
@@ -97,25 +107,68 @@ def enc_answer(a):
     return [[name, [int(i) for i in ids]] for name, ids in a]
 
 
-def det_case(mol, mol_id, tags, per_seed):
-    """per_seed: [(hashseed, worker answer)]"""
-    before = digest(worker_seed.snapshot(worker_seed.mk_graph(mol)))
+# ---------------------------------------------------------------------------
+# kinds of query objects: the construction parameters of FGQuery
+# ---------------------------------------------------------------------------
+MAPPERS = {"default": None,                 # FGQuery's own default: PermutationMapper(wildcard="R", ignore_case=True)
+           "strict": [None, True],          # PermutationMapper(wildcard=None, ignore_case=True): 'R' is an ordinary symbol
+           "R-case": ["R", False]}          # PermutationMapper(wildcard="R", ignore_case=False)
+
+
+def mk_kind(kid, mapper="default", cfgs=None, rh=True, tags=()):
+    return {"id": kid, "mapper_name": mapper, "mapper": MAPPERS[mapper], "cfgs": cfgs, "require_h": bool(rh),
+            "tags": ["kind:" + ("default-config" if cfgs is None else "user-config"), "mapper:" + mapper,
+                     "requireH=%d" % int(bool(rh))] + list(tags)}
+
+
+def query_job(kind, mol, fresh=True):
+    return {"op": "query", "mol": mol, "obj": kind["id"], "mapper": kind["mapper"], "cfgs": kind["cfgs"],
+            "require_h": kind["require_h"], "fresh": bool(fresh)}
+
+
+DEFAULT_KIND = mk_kind("default")
+
+
+def run_of(seed, res):
+    """one worker answer -> [seed, answers, snapshot digests] as `C06 det` reads it.  A failure in the set-up
+    (building the FGQuery object or the molecule graph in the worker, on an input the harness itself could build)
+    is NOT dropped: it is an answer `(raised Setup…)` with a snapshot digest that can never equal the one taken
+    before the call, so the case fails."""
+    if "same1" not in res:
+        why = res.get("raised_in_setup") or ("WorkerError" if "worker_error" in res else "NoAnswer")
+        return [seed, [[Atom("raised"), Atom("Setup" + str(why))]], ["setup-failed"]], False, True, True
+    keys = ("same1", "same2") + (("fresh",) if res.get("fresh") is not None else ())
+    snaps_k = ("before", "after1", "after2") + (("fresh_before", "fresh_after") if res.get("fresh") is not None else ())
+    answers = [enc_answer(res[k]) for k in keys]
+    nonempty = any(isinstance(res[k], list) and res[k] for k in keys)
+    raised = any(isinstance(res[k], dict) for k in keys)
+    return [seed, answers, [digest(res[k]) for k in snaps_k]], nonempty, raised, False
+
+
+def det_case(mol, mol_id, tags, per_run, before, kind=None):
+    """per_run: [(hashseed, worker answer, process label)]; one case per (kind of query object, molecule)"""
+    kind = kind or DEFAULT_KIND
+    if not per_run:
+        raise RuntimeError("no worker answered (%s, %s): the harness lost a job" % (kind["id"], mol_id))
     impl = []
-    any_answer = False
-    raised = False
-    for seed, res in per_seed:
-        if "same1" not in res:
-            return None
-        answers = [enc_answer(res[k]) for k in ("same1", "same2", "fresh")]
-        any_answer = any_answer or any(isinstance(res[k], list) and res[k] for k in ("same1", "same2", "fresh"))
-        raised = raised or any(isinstance(res[k], dict) for k in ("same1", "same2", "fresh"))
-        snaps = [digest(res[k]) for k in ("before", "after1", "after2", "fresh_before", "fresh_after")]
-        impl.append([seed, answers, snaps])
-    req = [Atom("C06"), Atom("det"), mol_id, before]
-    meta = {"mol": mol, "id": mol_id, "hashseeds": [s for s, _ in per_seed],
-            "answers_by_seed": {str(s): [r.get("same1"), r.get("same2"), r.get("fresh")] for s, r in per_seed}}
-    t = list(tags) + (["answer:nonempty"] if any_answer else ["answer:empty"]) + (["answer:raised"] if raised else [])
-    return Case(req, impl, meta=meta, nontrivial_key=mol_id if any_answer else None, compare_model=False, tags=t)
+    any_answer = raised = setup_failed = False
+    sigs = []
+    for seed, res, label in per_run:
+        one, ne, ra, sf = run_of(seed, res)
+        impl.append(one)
+        sigs.append(json.dumps(one[1:], sort_keys=True, default=str))
+        any_answer, raised, setup_failed = any_answer or ne, raised or ra, setup_failed or sf
+    cid = mol_id if kind["id"] == "default" else "%s | kind=%s" % (mol_id, kind["id"])
+    req = [Atom("C06"), Atom("det"), cid, before]
+    meta = {"mol": mol, "id": mol_id, "hashseeds": [s for s, _, _ in per_run],
+            "kind": {k: kind[k] for k in ("id", "mapper_name", "mapper", "cfgs", "require_h")},
+            "processes": [l for _, _, l in per_run],
+            "answers_by_process": {l: [r.get("same1"), r.get("same2"), r.get("fresh")] if "same1" in r else r
+                                   for _, r, l in per_run}}
+    t = list(tags) + list(kind["tags"]) + (["answer:nonempty"] if any_answer else ["answer:empty"]) + \
+        (["answer:raised"] if raised else []) + (["worker-setup-failed"] if setup_failed else [])
+    c = Case(req, impl, meta=meta, nontrivial_key=(kind["id"], mol_id) if any_answer else None, compare_model=False, tags=t)
+    return c, sigs
 
 
 def tree_view(res, inv):
@@ -206,21 +259,40 @@ def e2e_with_group_atoms(rng, dicts):
     return out
 
 
+def histories_for(runs, procs):
+    """runs: [(process label, hashseed, process index, position, answer signature)] of one failing (kind, molecule)
+    case -> for one process per DISTINCT answer (at most four; a pure process first): everything that process was
+    asked up to and including the failing query, so that the replay can rebuild the same history"""
+    out = []
+    seen = set()
+    for label, s, pi, pos, sig in sorted(runs, key=lambda x: (not x[0].startswith("pure"), x[0])):
+        if sig in seen or len(out) >= 4:
+            continue
+        seen.add(sig)
+        out.append({"process": label, "hashseed": s, "jobs": procs[pi][2][:pos + 1]})
+    return out
+
+
 def plan_seeds(rng, tier):
     if tier == "quick":
         return [0, 1, 2, 3, 4, rng.randrange(5, 2 ** 32 - 1)]
     return [0, 1, 2, 3, 4] + [rng.randrange(5, 2 ** 32 - 1) for _ in range(27)]
 
 
-def run(tier, seed):
-    r = Run("C06", tier, seed)
-    if not prepare(r, PROOFS, "C06"):
-        return 2
-    rng = r.rng
-    seeds = plan_seeds(rng, tier)
-    n_mols = 150 if tier == "quick" else 3000
-    per_mol_seeds = len(seeds) if tier == "quick" else 5
-    # ---- molecules ---------------------------------------------------------------------------------
+def default_subset_cfgs(rng):
+    """a user configuration that yields non-empty answers on ordinary molecules: a random part of the default
+    collection (with its group_atoms and anti-patterns), renamed and shuffled"""
+    from fgutils.fgconfig import _default_fg_config
+    k = rng.randint(6, 14)
+    part = [dict(d) for d in rng.sample(list(_default_fg_config), k)]
+    for d in part:
+        d["name"] = "u_" + d["name"]
+    return part
+
+
+def build_molecules(rng, r, n_gen):
+    """-> [(mol spec, id, tags, digest of the snapshot before any call)]; a molecule the HARNESS cannot build is a
+    generator refusal (counted); every molecule returned here can be built, so a worker that cannot is a failure"""
     mols = []
     corpus = load_corpus()
     for s in corpus:
@@ -244,24 +316,47 @@ def run(tier, seed):
                                  ["ambiguous-symbol-concatenation", "input:graph"]))
     refused = 0
     seen = set()
-    uniq = []
+    out = []
+
+    def admit(m):
+        if m[1] in seen:
+            return False
+        seen.add(m[1])
+        try:
+            before = digest(worker_seed.snapshot(worker_seed.mk_graph(m[0])))
+        except Exception as e:
+            if "corpus" in m[2] or "explicit-H" in m[2] or "ambiguous-symbol-concatenation" in m[2]:
+                raise RuntimeError("fixed molecule %r cannot be built: %r" % (m[1], e))
+            r.count("generator:molecule-refused:" + type(e).__name__)
+            return False
+        out.append((m[0], m[1], m[2], before))
+        return True
+
     for m in mols:
-        if m[1] not in seen:
-            seen.add(m[1])
-            uniq.append(m)
-    mols = uniq
+        admit(m)
+    n_fixed = len(out)
     tries = 0
-    n_mols += len(mols)
-    while len(mols) < n_mols and tries < 50 * n_mols:
+    while len(out) < n_fixed + n_gen and tries < 50 * n_gen:
         tries += 1
         m = gen_mol(rng)
         if m is None:
             refused += 1
             continue
-        if m[1] in seen:
-            continue
-        seen.add(m[1])
-        mols.append(m)
+        admit(m)
+    return out, refused, len(corpus)
+
+
+def run(tier, seed):
+    r = Run("C06", tier, seed)
+    if not prepare(r, PROOFS, "C06"):
+        return 2
+    rng = r.rng
+    seeds = plan_seeds(rng, tier)
+    quick = tier == "quick"
+    n_mols = 150 if quick else 3000
+    per_mol_seeds = len(seeds) if quick else 5
+    # ---- molecules ---------------------------------------------------------------------------------
+    mols, refused, n_corpus_mols = build_molecules(rng, r, n_mols)
     # ---- trees (ordered structure) -----------------------------------------------------------------
     infos = []
     from fgutils.fgconfig import _default_fg_config
@@ -269,16 +364,27 @@ def run(tier, seed):
     o1 = list(range(nd))
     rng.shuffle(o1)
     tree_plans = [(None, [list(range(nd)), list(reversed(range(nd))), o1], {"default-list"})]
-    for _ in range(20 if tier == "quick" else 200):
+    for _ in range(20 if quick else 200):
         pats, tags = c07.gen_list(rng)
         dicts = [{"name": "g%d" % i, "pattern": p} for i, p in enumerate(pats)]
         o = list(range(len(pats)))
         rng.shuffle(o)
         tree_plans.append((dicts, [list(range(len(pats))), o], set(tags) | {"generated"}))
+    # lists whose anti-patterns exclude would-be descendants (C07's corpus + generator): the ORDERED tree and the
+    # end-to-end answers must follow the veto as well
+    anti_lists = [(d, {"corpus"}) for d in c07.load_corpus() if any("anti_pattern" in c for c in d)]
+    for _ in range(8 if quick else 80):
+        d, tags = c07.gen_anti_list(rng)
+        anti_lists.append((d, set(tags) | {"generated"}))
+    for dicts, tags in anti_lists:
+        o = list(range(len(dicts)))
+        rng.shuffle(o)
+        tree_plans.append((dicts, [list(range(len(dicts))), o], set(tags) | {"has-anti-pattern"}))
     for dicts, orders, tags in tree_plans:
         try:
             infos.append((c07.ListInfo(dicts), orders, tags))
-        except Exception:
+        except Exception as e:
+            r.count("generator:list-refused-by-parser:" + type(e).__name__)
             continue
     tree_jobs = []
     tree_index = []
@@ -287,69 +393,148 @@ def run(tier, seed):
             tree_jobs.append({"op": "tree", "cfgs": None if info.is_default else info.dicts, "order": order,
                               "direct": False})
             tree_index.append((li, oi))
-    # ---- batches: (hashseed, jobs); every process sees its molecules in its own order ---------------
-    batches = []
-    keys = []
+    # ---- kinds of query objects --------------------------------------------------------------------
+    # default configuration under the three mappers and both values of require_implicit_hydrogen
+    # (require_implicit_hydrogen=False is the only path on which query.py works on the CALLER's graph: no deepcopy)
+    kinds = [DEFAULT_KIND, mk_kind("strict", "strict"), mk_kind("R-case", "R-case"),
+             mk_kind("default-noH", rh=False), mk_kind("strict-noH", "strict", rh=False)]
+    # user configurations: parts of the default collection, anti-pattern families, generated lists (with group_atoms)
+    gen_infos = [(info, tags) for info, _, tags in infos if not info.is_default]
+    n_user = 6 if quick else 30
+    user_lists = []
+    for k in range(n_user):
+        x = k % 3
+        if x == 0:
+            user_lists.append((default_subset_cfgs(rng), "default-subset"))
+        elif x == 1:
+            cand = [i for i, t in gen_infos if i.has_anti and i.in_domain]
+            user_lists.append((e2e_with_group_atoms(rng, rng.choice(cand).dicts), "anti-list") if cand
+                              else (default_subset_cfgs(rng), "default-subset"))
+        else:
+            cand = [i for i, t in gen_infos if i.in_domain] or [i for i, t in gen_infos]
+            user_lists.append((e2e_with_group_atoms(rng, rng.choice(cand).dicts), "generated-list"))
+    for k, (cfgs, what) in enumerate(user_lists):
+        mp = rng.choice(["default", "default", "strict", "R-case"])
+        for rh in (True, False):
+            kinds.append(mk_kind("user%d-%s-%s-H%d" % (k, what, mp, int(rh)), mp, cfgs, rh, tags=["user:" + what]))
+    # ---- which molecules each kind is asked ----------------------------------------------------------
+    n_sub = 36 if quick else 300
+    n_user_mols = 14 if quick else 40
+    fixed = [mi for mi, m in enumerate(mols) if "corpus" in m[2] or "explicit-H" in m[2]]
+    rest = [mi for mi in range(len(mols)) if mi not in set(fixed)]
+    expl = [mi for mi, m in enumerate(mols) if "explicit-H" in m[2]]
+    mols_of = {}
+    for ki, kd in enumerate(kinds):
+        if ki == 0:
+            mols_of[ki] = list(range(len(mols)))
+        elif kd["cfgs"] is None:
+            pick = rng.sample(fixed, min(len(fixed), n_sub // 2))
+            mols_of[ki] = sorted(set(pick + expl[:4] + rng.sample(rest, min(len(rest), n_sub - len(pick)))))
+        else:
+            pick = rng.sample(fixed, min(len(fixed), n_user_mols // 2))
+            mols_of[ki] = sorted(set(pick + rng.sample(expl, 2) + rng.sample(rest, min(len(rest), n_user_mols - len(pick)))))
+    mixed_default = sorted(set(rng.sample(fixed, min(len(fixed), n_sub // 2)) + rng.sample(rest, min(len(rest), n_sub // 2))))
+    # ---- processes: (label, hashseed, [job], [key]) ----------------------------------------------------
+    # PURE processes only ever build one kind of query object (the reference); MIXED processes interleave queries on
+    # objects of ALL kinds, the objects being built at their first use, in a seed-dependent order; TREE processes
+    # build the hierarchies.  Every (kind, molecule) must receive the same answers everywhere.
+    procs = []
     t0 = time.time()
-    shards_per_seed = 2 if tier == "quick" else 1
+    shards_per_seed = 2 if quick else 1
+    fresh_home = {mi: rng.randrange(len(seeds)) if quick else (mi - rng.randrange(per_mol_seeds)) % len(seeds)
+                  for mi in range(len(mols))}
     for si, s in enumerate(seeds):
-        mine = [mi for mi in range(len(mols)) if tier == "quick" or (mi - si) % len(seeds) < per_mol_seeds]
+        mine = [mi for mi in range(len(mols)) if quick or (mi - si) % len(seeds) < per_mol_seeds]
         order = list(mine)
         rng.shuffle(order)
         for sh in range(shards_per_seed):
             part = [mi for k, mi in enumerate(order) if k % shards_per_seed == sh]
-            jobs = [{"op": "query", "mol": mols[mi][0], "obj": "default"} for mi in part]
-            ks = [("mol", mi) for mi in part]
-            if sh == 0:
-                tj = [ji for ji in range(len(tree_jobs)) if tier == "quick" or (ji + si) % 4 == 0]
-                jobs = [tree_jobs[ji] for ji in tj] + jobs
-                ks = [("tree", ji) for ji in tj] + ks
-            batches.append((s, jobs))
-            keys.append(ks)
-    results = c07.run_workers(batches)
+            # a fresh default object costs a full tree build (~0.3 s): asked for every molecule in one of its processes
+            # (its "home" seed) and for a twentieth of the molecules in each of the others
+            jobs = [query_job(kinds[0], mols[mi][0], fresh=(fresh_home[mi] == si or rng.random() < 0.05)) for mi in part]
+            procs.append(("pure:default/seed%d/%d" % (s, sh), s, jobs, [("q", 0, mi) for mi in part]))
+        tj = [ji for ji in range(len(tree_jobs)) if quick or (ji + si) % 4 == 0]
+        procs.append(("trees/seed%d" % s, s, [tree_jobs[ji] for ji in tj], [("tree", ji, None) for ji in tj]))
+    for ki, kd in enumerate(kinds):
+        if ki == 0:
+            continue
+        cheap = kd["cfgs"] is not None
+        for rep in range(1 if quick else 2):
+            s = seeds[(ki + 3 * rep) % len(seeds)]
+            part = list(mols_of[ki])
+            rng.shuffle(part)
+            jobs = [query_job(kd, mols[mi][0], fresh=cheap or rng.random() < 0.5) for mi in part]
+            procs.append(("pure:%s/seed%d" % (kd["id"], s), s, jobs, [("q", ki, mi) for mi in part]))
+    n_mixed = len(seeds) if quick else 16
+    for j in range(n_mixed):
+        s = seeds[j % len(seeds)]
+        pairs = [(ki, mi) for ki in range(1, len(kinds)) for mi in mols_of[ki]] + [(0, mi) for mi in mixed_default]
+        rng.shuffle(pairs)
+        # the first queries: one per kind, in a random order of the kinds -> the long-lived objects are BUILT in that order
+        first = list(range(len(kinds)))
+        rng.shuffle(first)
+        head = []
+        for ki in first:
+            k = next(i for i, p_ in enumerate(pairs) if p_[0] == ki)
+            head.append(pairs.pop(k))
+        pairs = head + pairs
+        jobs = [query_job(kinds[ki], mols[mi][0], fresh=(kinds[ki]["cfgs"] is not None or rng.random() < 0.12)) for ki, mi in pairs]
+        procs.append(("mixed%d/seed%d" % (j, s), s, jobs, [("q", ki, mi) for ki, mi in pairs]))
+    order_p = sorted(range(len(procs)), key=lambda i: -sum(3 if (j.get("fresh") and j.get("cfgs") is None) else 1 for j in procs[i][2]))
+    results = c07.run_workers([(procs[i][1], procs[i][2]) for i in order_p])
     r.notes["worker_wall_s"] = round(time.time() - t0, 1)
-    by_mol = {}
+    by_q = {}
     by_tree = {}
-    for (s, _), ks, res in zip(batches, keys, results):
-        for (kind, i), one in zip(ks, res):
-            (by_mol if kind == "mol" else by_tree).setdefault(i, []).append((s, one))
+    for i, res in zip(order_p, results):
+        label, s, jobs, keys = procs[i]
+        for pos, ((kind_, a, b_), one) in enumerate(zip(keys, res)):
+            if kind_ == "q":
+                by_q.setdefault((a, b_), []).append((s, one, label, i, pos))
+            else:
+                by_tree.setdefault(a, []).append((s, one))
     # ---- cases -------------------------------------------------------------------------------------
     cases = []
+    where = {}
     setup_failed = 0
-    for mi, (mol, mol_id, tags) in enumerate(mols):
-        c = det_case(mol, mol_id, tags, by_mol.get(mi, []))
-        if c is None:
-            setup_failed += 1
-            continue
-        cases.append(c)
+    for ki, kd in enumerate(kinds):
+        for mi in mols_of[ki]:
+            mol, mol_id, tags, before = mols[mi]
+            runs = sorted(by_q.get((ki, mi), []), key=lambda x: x[2])
+            c, sigs = det_case(mol, mol_id, tags, [(s_, one, label) for s_, one, label, _, _ in runs], before, kd)
+            setup_failed += sum(1 for x in runs if "same1" not in x[1])
+            where[id(c)] = [(label, s_, pi, pos, sig) for (s_, _, label, pi, pos), sig in zip(runs, sigs)]
+            cases.append(c)
     for ji, (li, oi) in enumerate(tree_index):
         info, orders, tags = infos[li]
         if ji in by_tree:
             cases += tree_cases(info, orders[oi], by_tree[ji], envseed=ji % 7, tags=tags)
     # ---- end to end: real FGQuery(config=…).get against the composed model (sample per run) ----------
-    from fgutils.fgconfig import _default_fg_config
-    n_lists, n_per = (8, 4) if tier == "quick" else (60, 8)
+    n_lists, n_per = (8, 4) if quick else (60, 8)
     e2e_plans = [(list(_default_fg_config), {"default-list"}, 2 * n_per)]
-    gen_infos = [(info, tags) for info, _, tags in infos if not info.is_default]
-    for info, tags in rng.sample(gen_infos, min(n_lists, len(gen_infos))):
+    plain = [(info, tags) for info, tags in gen_infos if not info.has_anti]
+    anti = [(info, tags) for info, tags in gen_infos if info.has_anti]
+    for info, tags in rng.sample(plain, min(n_lists, len(plain))) + rng.sample(anti, min(n_lists // 2, len(anti))):
         e2e_plans.append((e2e_with_group_atoms(rng, info.dicts), set(tags) | {"generated"}, n_per))
+    for cfgs, what in user_lists[:3 if quick else 12]:
+        e2e_plans.append((cfgs, {"user:" + what}, n_per))
     e2e_built = 0
-    n_corpus = len(corpus) if tier != "quick" else 12
+    n_corpus = n_corpus_mols if not quick else 12
     for dicts, tags, k in e2e_plans:
         # the default list is asked the corpus molecules first (sibling ties: the witnesses of F4), then random ones
         picks = list(range(min(n_corpus, len(mols)))) if "default-list" in tags else []
         picks += [rng.randrange(len(mols)) for _ in range(k)]
         for mi in picks:
-            mol, mol_id, _t = mols[mi]
+            mol, mol_id, _t, _b = mols[mi]
             order = list(range(len(dicts)))
             if rng.random() < 0.5:
                 rng.shuffle(order)
-            try:
-                cases.append(e2e_case(dicts, order, mol, mol_id, rng.random() < 0.7, rng.randrange(0, 7), sorted(tags)))
-                e2e_built += 1
-            except Exception:
-                setup_failed += 1
+            # (an exception here is the harness' own: it propagates and the run exits 2 — never a silently missing case)
+            cases.append(e2e_case(dicts, order, mol, mol_id, rng.random() < 0.7, rng.randrange(0, 7), sorted(tags)))
+            e2e_built += 1
     outs = r.evaluate(cases)
+    for o in r.spec_failures:
+        if id(o.case) in where:
+            o.case.meta["histories"] = histories_for(where[id(o.case)], procs)
     e2e_outs = [o for o in outs if o.ok_reply and o.case.req[1] == "e2e"]
     # C06.query_end_to_end_total: distinct pattern strings alone make the outcome (answer or AssertionError) independent
     e2e_dep = sum(1 for o in e2e_outs if len(o.extra) >= 3 and o.extra[1] == "1" and o.extra[0] != "1")
@@ -366,11 +551,21 @@ def run(tier, seed):
     env_dep = sum(1 for o in outs if o.ok_reply and o.case.req[1] == "tree" and o.case.in_domain and o.extra and o.extra[0] != "1")
     order_contract = sum(1 for o in outs if o.ok_reply and o.case.req[1] == "tree" and o.case.in_domain
                          and len(o.extra) > 1 and o.extra[1] != "1")
+    q_runs = [x for v in by_q.values() for x in v]
     r.extra_cov.update({
         "ordered_trees_not_sorted_by_the_models_key": order_contract,
-        "hash_seeds": seeds, "molecules": len(mols), "molecule_runs": sum(len(v) for v in by_mol.values()),
-        "queries_asked": 3 * sum(len(v) for v in by_mol.values()), "smiles_refused_by_rdkit": refused,
-        "molecules_whose_graph_could_not_be_built": setup_failed, "tree_jobs": len(tree_jobs),
+        "hash_seeds": seeds, "molecules": len(mols), "kinds_of_query_objects": [k["id"] for k in kinds],
+        "worker_processes": {"pure (one kind of object only)": sum(1 for p_ in procs if p_[0].startswith("pure")),
+                             "mixed (all kinds interleaved, seed-dependent construction order)": sum(1 for p_ in procs if p_[0].startswith("mixed")),
+                             "trees": sum(1 for p_ in procs if p_[0].startswith("trees"))},
+        "(kind, molecule)_cases": sum(len(v) for v in mols_of.values()),
+        "molecule_runs": len(q_runs),
+        "queries_asked": sum(2 + (1 if x[1].get("fresh") is not None else 0) for x in q_runs if "same1" in x[1]),
+        "runs_with_require_implicit_hydrogen=False": sum(1 for (ki, _), v in by_q.items() if not kinds[ki]["require_h"] for _ in v),
+        "runs_with_a_user_configuration": sum(1 for (ki, _), v in by_q.items() if kinds[ki]["cfgs"] is not None for _ in v),
+        "runs_with_a_non_default_mapper": sum(1 for (ki, _), v in by_q.items() if kinds[ki]["mapper"] is not None for _ in v),
+        "smiles_refused_by_rdkit": refused,
+        "worker_setup_failures_(each_fails_its_case)": setup_failed, "tree_jobs": len(tree_jobs),
         "model_trees_depending_on_the_set_order_parameter": env_dep, "worker_wall_s": r.notes["worker_wall_s"],
     })
     if env_dep:
@@ -382,20 +577,32 @@ def run(tier, seed):
         "Proofs/C06Full.lean composes tree builder (C07), cache and query (C05) and proves the statement for the composed model "
         "(hypothesis: pairwise distinct pattern strings; with 'the both-directions assertion cannot fire' the outcome is an answer); the composed model is compared exactly with FGQuery(config=…).get on a sample per run",
         "CPython hash randomisation and object addresses are not modelled: they are exercised by fresh interpreter processes under PYTHONHASHSEED " + str(seeds[:6]) + ("…" if len(seeds) > 6 else ""),
-        "input_untouched is true of the model by construction; for the code it is checked by snapshots of the caller's graph (node order, attributes, adjacency order, edge attributes, graph attributes) around every call",
+        "C06.input_untouched is `rfl` (the model's `get` hands the caller's graph back as a record field: true by construction, it says nothing about the code) and in C06.deterministic "
+        "'equal arguments give equal answers' is Lean's typing (model functions are pure); neither carries evidence about fgutils. Purity of the CODE is checked only by the runtime "
+        "snapshots of the caller's graph (node order, attributes, adjacency order, edge attributes, graph attributes) around every call — including require_implicit_hydrogen=False, "
+        "the only path on which query.py does not deep-copy the graph; the theorems with content are env_independent*, view_env_independent*, query_end_to_end*, history_end_to_end, default_*",
+        "state shared BETWEEN query objects (module globals, class attributes, caches keyed by configuration) is not modelled: it is exercised by worker processes that interleave queries on objects "
+        "built with different mappers / configurations / require_implicit_hydrogen in seed-dependent construction orders, compared with processes that only ever built one kind of object",
+        "a worker that fails while building the FGQuery object or the molecule graph (on an input the harness itself could build) fails its case; a query job that gets no answer is a machinery failure (exit 2)",
     ]
     return r.finish(
         level="proof",
-        rule="molecules: corpus (incl. every witness of F4/K3) + generated SMILES (O=C(X)Y family on which sibling groups tie; chains with functional groups), "
-             "given as RDKit graphs, parser graphs with id offsets, or graphs with sparse shuffled ids; every molecule asked twice on a long-lived object and once on a fresh object in each "
-             "of several fresh interpreters with different PYTHONHASHSEED and different molecule orders; ordered trees of the default list and generated lists compared with the model; "
-             "end-to-end answers of FGQuery(config=list).get on the default list (corpus + random molecules) and on a sample of generated lists (some with explicit group_atoms) compared exactly with the composed model; "
-             "non-trivial = molecule with a non-empty answer / one tree job",
+        rule="molecules: corpus (incl. every witness of F4/K3) + explicit-H graphs + ambiguous symbol concatenations + generated SMILES (O=C(X)Y family on which sibling groups tie; chains with functional groups), "
+             "given as RDKit graphs, parser graphs with id offsets, or graphs with sparse shuffled ids. Query objects of several KINDS = construction parameters of FGQuery: default collection under the mappers "
+             "default / PermutationMapper(wildcard=None, ignore_case=True) / PermutationMapper(wildcard='R', ignore_case=False), each with require_implicit_hydrogen True and (default, strict) False; "
+             "user configurations (parts of the default collection, lists with effective anti-patterns, generated lists; explicit group_atoms) under a seed-chosen mapper with require_implicit_hydrogen True and False. "
+             "Every (kind, molecule) is asked twice on a long-lived object and (always for user configurations, for a seed-chosen part otherwise, at least once per molecule) on a freshly built object, "
+             "in PURE fresh interpreters that only ever build that kind and in MIXED fresh interpreters that interleave all kinds (objects built at first use, in a seed-dependent order), under different PYTHONHASHSEED and molecule orders; "
+             "all answers of one (kind, molecule) must be identical and the caller's graph untouched. Ordered trees of the default list, generated lists and lists with effective anti-patterns compared with the model; "
+             "end-to-end answers of FGQuery(config=list).get on the default list (corpus + random molecules) and on a sample of generated / anti-pattern / user lists (some with explicit group_atoms) compared exactly with the composed model; "
+             "non-trivial = (kind, molecule) with a non-empty answer / one tree job / one end-to-end case with a non-empty answer",
         checker_cmd="cd lean && lake build " + " ".join(PROOFS) + " && lake env lean FGVerif/Audit/C06.lean",
-        explanation="theorems in lean/FGVerif/Proofs/C06.lean (history independence via the cache invariant; independence of the ordered tree from the set-iteration order and the list order for pairwise "
-                    "distinct keys; decided witness that the unrepaired hash key is order-dependent); Proofs/C06Full.lean, C06Total.lean, C06Relabel.lean, C06Default.lean: the same for the COMPOSED model "
-                    "(tree builder + cache + C05's query; hypothesis: pairwise distinct pattern strings), the default list kernel-checked against the tree extracted from the real get_tree(), "
-                    "and exact comparison of the composed model with FGQuery(config=…).get on a sample of lists and molecules (`C06 e2e`); runtime determinism and purity checked by the executable spec `C06 det` on the answers of fresh interpreters")
+        explanation="what is PROVED (Lean, about the model): history independence via the cache invariant (history_independent, history_end_to_end); independence of the ordered tree from the set-iteration order and the list order "
+                    "for pairwise distinct keys (env_independent*, view_env_independent*); the same for the COMPOSED model tree builder + cache + C05's query under 'pattern strings pairwise distinct' "
+                    "(query_end_to_end, query_end_to_end_total, query_end_to_end_checked; Proofs/C06Full.lean, C06Total.lean, C06Relabel.lean), the default list kernel-checked against the tree extracted from the real get_tree() "
+                    "(C06Default.lean); a decided witness that the unrepaired hash key is order-dependent. NOT evidence: C06.input_untouched is `rfl` and the functional part of C06.deterministic is typing — both hold by construction of the model. "
+                    "What is CHECKED AT RUNTIME (code): exact comparison of the composed model with FGQuery(config=…).get on a sample of lists and molecules (`C06 e2e`); determinism across processes / hash seeds / histories / "
+                    "kinds of query objects built earlier in the process, and purity (snapshots), by the executable spec `C06 det` on the answers of fresh interpreters")
 
 
 def replay(path):
@@ -406,15 +613,29 @@ def replay(path):
         return 2
     seeds = meta.get("hashseeds") or [0, 1, 2, 3, 4]
     if "mol" in meta:
-        job = {"op": "query", "mol": meta["mol"], "obj": "default"}
-        res = c07.run_workers([(s, [job]) for s in seeds])
-        per = [(s, x[0]) for s, x in zip(seeds, res)]
-        for s, x in per:
-            print("replay: PYTHONHASHSEED=%s same1=%s same2=%s fresh=%s untouched=%s" % (
-                s, x.get("same1"), x.get("same2"), x.get("fresh"),
-                x.get("before") == x.get("after1") == x.get("after2") and x.get("fresh_before") == x.get("fresh_after")))
-        c = det_case(meta["mol"], meta["id"], ["replay"], per)
-        r.evaluate([c] if c else [])
+        k = meta.get("kind") or {}
+        kind = mk_kind(k.get("id", "default"), k.get("mapper_name", "default"), k.get("cfgs"), k.get("require_h", True))
+        before = digest(worker_seed.snapshot(worker_seed.mk_graph(meta["mol"])))
+        if meta.get("histories"):
+            # re-run, in fresh interpreters under the recorded hash seeds, everything the recorded processes were asked
+            # up to the failing query (one process per distinct answer); the last answer of each is the one compared
+            hs = meta["histories"]
+            res = c07.run_workers([(h["hashseed"], h["jobs"]) for h in hs])
+            per = [(h["hashseed"], x[-1], h["process"]) for h, x in zip(hs, res)]
+            for h, x in zip(hs, res):
+                print("replay: process %s (PYTHONHASHSEED=%s, %d earlier jobs, objects built before: %s)" % (
+                    h["process"], h["hashseed"], len(h["jobs"]) - 1, x[-1].get("objects_built_before")))
+        else:
+            job = query_job(kind, meta["mol"], True)
+            res = c07.run_workers([(s, [job]) for s in sorted(set(seeds))])
+            per = [(s, x[0], "single-job/seed%s" % s) for s, x in zip(sorted(set(seeds)), res)]
+        for s, x, label in per:
+            print("replay: kind=%s %s PYTHONHASHSEED=%s same1=%s same2=%s fresh=%s untouched=%s%s" % (
+                kind["id"], label, s, x.get("same1"), x.get("same2"), x.get("fresh"),
+                "same1" in x and x.get("before") == x.get("after1") == x.get("after2") and x.get("fresh_before") == x.get("fresh_after"),
+                "" if "same1" in x else " SETUP FAILED: %s" % x))
+        c, _ = det_case(meta["mol"], meta["id"], ["replay"], per, before, kind)
+        r.evaluate([c])
     elif "e2e" in meta:
         e = meta["e2e"]
         c = e2e_case(e["cfgs"], e["order"], e["mol"], e["id"], e["require_h"], e["envseed"], ["replay"])
